@@ -157,3 +157,31 @@ func nativeTestCmd(hdir, re string) int {
 	}
 	return 0
 }
+
+// runNativeChecks runs the native tests a spec lists under "native_checks" (preconditions of the
+// encoding, e.g. "the case table of the induction matches the dependency's AST": they do not decide
+// the property, but when one fails the symbolic verdict is not to be trusted). Returns the problems.
+func runNativeChecks(spec *Spec) []string {
+	if len(spec.NativeChecks) == 0 {
+		return nil
+	}
+	bin, err := buildReplayBinary(spec)
+	if err != nil {
+		return []string{"native_checks: " + err.Error()}
+	}
+	var problems []string
+	for _, re := range spec.NativeChecks {
+		cmd := exec.Command(bin, "-test.run", "^"+re+"$", "-test.timeout", "600s", "-test.v")
+		cmd.Dir = filepath.Join(repoDir, spec.Dir)
+		cmd.Env = goEnv()
+		out, err := cmd.CombinedOutput()
+		if err != nil || !strings.Contains(string(out), "--- PASS: "+re) {
+			tail := string(out)
+			if len(tail) > 600 {
+				tail = tail[len(tail)-600:]
+			}
+			problems = append(problems, fmt.Sprintf("native check %s did not pass: %v %s", re, err, strings.ReplaceAll(tail, "\n", " | ")))
+		}
+	}
+	return problems
+}
